@@ -13,6 +13,7 @@ CONSTANTS
  DevF13 = FALSE
  DevVerKey = FALSE
  DevDangEnd = FALSE
+ DevRepBeforePattern = FALSE
  DevLastOfName = TRUE
  DevNoAtomResname = FALSE
  DevOrderedPairs = FALSE
